@@ -430,10 +430,16 @@ void PedersenCommitmentScheme::CommitBy
 bool PedersenCommitmentScheme::TestMembership
 	(mpz_srcptr c) const
 {
-	if ((mpz_cmp_ui(c, 0L) > 0) && (mpz_cmp(c, p) < 0))
-		return true;
-	else
+	// check the range of c
+	if ((mpz_cmp_ui(c, 0L) <= 0) || (mpz_cmp(c, p) >= 0))
 		return false;
+	// check whether c has order q, i.e., c is from the commitment space
+	mpz_t tmp;
+	mpz_init(tmp);
+	mpz_powm(tmp, c, q, p);
+	bool ok = (mpz_cmp_ui(tmp, 1L) == 0);
+	mpz_clear(tmp);
+	return ok;
 }
 
 bool PedersenCommitmentScheme::Verify
